@@ -77,10 +77,11 @@ def find_def(modname, path):
         found = None
         pool = list(body)
         # search nested statements too (defs inside if/try/for bodies) but not inside other defs/classes
-        while pool and found is None:
+        while pool:
             n = pool.pop(0)
             if isinstance(n, (ast.FunctionDef, ast.AsyncFunctionDef, ast.ClassDef)):
-                if n.name == part: found = n
+                if n.name == part and not any(ast.unparse(d).split('.')[-1] == 'overload' for d in n.decorator_list):
+                    found = n            # keep scanning: the last definition of a name is the one that is bound
                 continue
             for ch in ast.iter_child_nodes(n):
                 if isinstance(ch, ast.stmt): pool.append(ch)
@@ -116,6 +117,7 @@ class Clauses:
     def __init__(self):
         self.requires, self.ensures, self.raises, self.emits = [], [], [], []
         self.result_pv = None
+        self.trace_spec = None
 
 
 class RaiseCase:
@@ -158,6 +160,10 @@ class Ctx:
     def raises(self, cls, when=None, ensures=None, iff=False, label=None, unchanged=True):
         self.out.raises.append(RaiseCase(cls, when, ensures, iff, label or cls, unchanged))
     def emit(self, record): self.out.emits.append(record)
+    def expect_trace(self, fn, length):
+        """the activation's own trace of traced calls: fn(k) is the k-th record (a function of the pre-state), `length`
+        the number of records on a normal return"""
+        self.out.trace_spec = (fn, length)
     def returns(self, pv):
         """fix the result to a specific value"""
         self.out.result_pv = pv
@@ -251,6 +257,7 @@ class FnSpec:
         self._comp = h.get('comp')
         self.field_write = h.get('field_write')
         self.closure_vals = {}
+        self.trace_spec = None
         self.opaque_fstrings = h.get('opaque_fstrings', False)
         self.assumptions = set()
         self.written_fields = set()
